@@ -5,6 +5,8 @@ cd /repo || exit 9
 if [ -n "$(git status --porcelain)" ]; then echo "/repo not clean"; exit 9; fi
 git apply "$P" || { echo "patch does not apply"; exit 9; }
 cd /verif
+cp -f "evidence/$ID.json" "/root/scratch/evidence_$ID.keep" 2>/dev/null
 ./check "$ID" --tier "$TIER" 2>&1 | grep -E "VIOLATION|KNOWN-FINDING|INCONCLUSIVE|^\[" | head -${LINES_MAX:-8}
 echo "exit=$?"
+cp -f "/root/scratch/evidence_$ID.keep" "evidence/$ID.json" 2>/dev/null
 git -C /repo checkout -- . ; git -C /repo status --porcelain | head -3
